@@ -23,6 +23,13 @@ class CachedDataset(Dataset):
             return getattr(super(), item)
         return getattr(self.dataset, item)
 
+    def worker_init_fn(self, rank, **kwargs):
+        # the transform is applied after the cache -> it has to be re-seeded in every dataloader worker
+        if hasattr(self.transform, "worker_init_fn"):
+            self.transform.worker_init_fn(rank, **kwargs)
+        if hasattr(self.dataset, "worker_init_fn"):
+            self.dataset.worker_init_fn(rank, **kwargs)
+
     def _cached_getitem(self, index):
         raise NotImplementedError
 
